@@ -617,7 +617,8 @@ class C20(World):
                     elif op["op"] == "attempt":
                         if st["files"] is None:
                             raise Inapplicable()
-                        if cfg.get("enumerate_truncation") and op["fault"]["kind"] == "truncate" and len(st["files"][st["main"]]) <= 4096:
+                        if cfg.get("enumerate_truncation") and op["fault"]["kind"] == "truncate" and len(st["files"][st["main"]]) <= (4096 if self.TIER == "thorough" else 1536) and not st.get("enumerated"):
+                            st["enumerated"] = True  # once per run: every offset of the payload
                             for at in range(len(st["files"][st["main"]]) + 1):
                                 self._attempt(dict(op, fault=dict(op["fault"], at=at)), cfg, st, scratch, mon, ctx)
                         else:
